@@ -4,7 +4,7 @@ from ..framework import Case
 from ..common import hexs
 from .streamref import M64
 
-LEAN_MODULES = ["Op2Proofs.Props.C14"]
+LEAN_MODULES = ["Op2Proofs.Props.C14", "Op2Proofs.Props.C14_Gen"]
 RULE = ("fixed-buffer writer between two 16-byte guard zones: all histories of length <= 2 (thorough: <= 3) over {Write(0..3 bytes, "
         "and up to len+1), Seek, SeekForward, SeekBackward, SeekBeginning, SeekEnd} with boundary arguments on buffers of length 0, 1, 5; "
         "buffer content, guard zones, Position and Length observed after every step and compared with an independent Python "
@@ -15,7 +15,7 @@ RULE = ("fixed-buffer writer between two 16-byte guard zones: all histories of l
 PROVED = ("fixed writer model (u64 guards) = N specification on every op/argument/history; a refused op changes nothing and the "
           "buffer never changes size; a write touches exactly [pos, pos+n); growing writer = history fold (append, zero fill, "
           "truncate); prefix refusal and acceptance; u16/u32 codecs invert; copy loop transfers exactly the remaining bytes for "
-          "EVERY chunk size B>0 and source; open-flag decision table equals the documented meaning on all 32 rows (decide)")
+          "EVERY chunk size B>0 and source; open-flag decision table equals the documented meaning on all 32 rows (decide); L2: guards and cursor updates of MemoryWriter (Seek/SeekForward/SeekBackward/WriteImplementation) and DynamicMemoryWriter (SeekForward/SeekBackward/Seek/WriteImplementation) are re-translated from the C++ on every run (Gen/Streams.lean) and proved equal to the models' on all 64-bit values (C14_gen_*)")
 PARTIAL = ("what std::ofstream does with an open mode is OS/library behaviour: assumed (ofstreamKeeps) and checked on disk. The row "
            "'existing file, neither Truncate nor Append' carries no property clause (the flags say nothing about prior content).")
 TRUSTED = ["std::ofstream open-mode semantics (out truncates unless app)", "std::vector::resize zero-fills / truncates"]
